@@ -108,25 +108,24 @@ def classify_collision(rel: str, api: dict | None) -> str:
         return "unclassified"
     parts = rel.split("/")
     pkg_id, base = "/".join(parts[:-1]), parts[-1][: -len(".sdsstub")]
-    reexports_decl_n = False
-    for m in api.get("modules", []):
-        if m.get("id") == pkg_id and m.get("name") == "__init__":
-            for qi in m.get("qualified_imports", []):
-                if (qi.get("alias") or qi.get("qualified_name", "").split(".")[-1]).lstrip("_") == base:
-                    reexports_decl_n = True
-    module_named_n = any(m.get("name", "").lstrip("_") == base and m.get("name") != "__init__" for m in api.get("modules", []))
-    if reexports_decl_n and module_named_n:
-        return "module-vs-reexported-declaration-homonym"
-    # 'homonymous-modules-one-reexported': P's __init__ re-exports a MODULE m under the name N, and two or more modules
-    # called m exist in the analysed files: the re-export lookup goes by the short module name, so all of them are sent to P/N
+    module_names = [m.get("name", "") for m in api.get("modules", []) if m.get("name") != "__init__"]
     for m in api.get("modules", []):
         if m.get("id") == pkg_id and m.get("name") == "__init__":
             for qi in m.get("qualified_imports", []):
                 last = qi.get("qualified_name", "").split(".")[-1]
-                if (qi.get("alias") or last).lstrip("_") == base:
-                    homonyms = [x for x in api.get("modules", []) if x.get("name") == last]
-                    if len(homonyms) >= 2:
+                if (qi.get("alias") or last).lstrip("_") != base:
+                    continue
+                as_path = qi.get("qualified_name", "").replace(".", "/")
+                module_ids = [x.get("id", "") for x in api.get("modules", []) if x.get("name") != "__init__"]
+                names_module = any(mid in (as_path, f"{pkg_id}/{as_path}") or mid.endswith("/" + as_path) for mid in module_ids)
+                if names_module:
+                    # the import names a MODULE: 'homonymous-modules-one-reexported' when two or more modules carry that
+                    # short name (the re-export lookup goes by the short module name, so all of them are sent to P/N)
+                    if module_names.count(last) >= 2:
                         return "homonymous-modules-one-reexported"
+                elif any(n.lstrip("_") == base for n in module_names):
+                    # the import names a DECLARATION N and a module called N exists as well
+                    return "module-vs-reexported-declaration-homonym"
     return "unclassified"
 
 
